@@ -361,7 +361,11 @@ def main():
         return 1
 
     # ---- 2. generated part of the model + lake build -----------------------------------------
-    gen_info = mod.generate(ctx) if hasattr(mod, "generate") else {}
+    # the generated Lean files are a function of the tree: regenerate them on every run (the driver imports them)
+    import translate
+    gen_all = translate.generate_all(ctx.build("base"))
+    uses_gen = getattr(mod, "USES_GENERATED", False)
+    gen_info = gen_all if uses_gen else {}
     gen_failures = gen_info.get("failures", []) if gen_info else []
     targets = [props_mod, "driver"]
     rc, out, dt = lake_build(targets)
